@@ -735,7 +735,7 @@ func (g *c05Gen) cell() string {
 		return r.Pick([]string{"XFD1", "XFD30", "XFC2"})
 	case r.Chance(1) && !g.far:
 		g.far = true
-		return r.Pick([]string{"A20000", "C15000"})
+		return r.Pick([]string{"A3000", "C2500"})
 	}
 	c, _ := xl.CoordinatesToCellName(r.Range(1, 8), r.Range(1, 20))
 	return c
@@ -903,7 +903,7 @@ func (g *c05Gen) opStruct() {
 			g.emit("h.coloutline", hx(s), col, g.istr(r.Range(0, 8)))
 		}
 	case 15:
-		g.emit("h.colstyle", hx(s), r.Pick([]string{col, "B:D", "D:B", "XFD"}), g.istr(r.Intn(50)))
+		g.emit("h.colstyle", hx(s), r.Pick([]string{col, "B:D", "D:B", "H:J"}), g.istr(r.Intn(50)))
 	}
 }
 
